@@ -5,6 +5,7 @@ func init() {
 		ID:    "C02",
 		Title: "@if/@elseif/@else renders exactly the first truthy branch",
 		Rules: []string{
+			"R-BODYENTRY: every caller of the block parser, evaluated by cases on an abstract parser (token types as named unknowns), enters it only on a token it has looked at and that is not END / ELSE / ELSE_IF — an empty body is an empty block, not the enclosing construct's closer",
 			"R-DIRMODE: after a bare directive (@else @end @break @continue) the lexer stays in text mode whatever follows; decided by case evaluation of directiveToken per (directive, next character)",
 			"R-TRUTH: the table (operand type -> returned expression) extracted from isTruthy equals the table of C02; the five constructs branch on isTruthy of their evaluated condition and on nothing else",
 			"R-BRANCH: in evalIfStmt/evalTernaryExp each branch evaluation is control-dependent on the truthiness of its own condition, branches are visited in source order, a chosen branch's result is returned at once, @else only after all conditions were falsy",
@@ -23,6 +24,7 @@ func init() {
 			m.RunBranch(s, "R-BRANCH")
 			m.RunBlockEnd(s, "R-BLOCKEND")
 			m.RunBlockStart(s, "R-BLOCKSTART")
+			m.RunBodyEntry(s, "R-BODYENTRY") // an empty body (of a slot, an insert, a branch, a loop) does not take the enclosing closer
 			m.RunLoop(s, "R-LOOP") // a truthy @breakIf / @continueIf acts on its loop wherever it sits in the body (also under @elseif)
 			m.RunPrefixKW(s, "R-PREFIXKW")
 			m.RunEmit(s, "R-EMIT")
